@@ -264,7 +264,7 @@ def odd_streams(rng, ctx):
         yield "skysense", raw
 
 
-def cases(ctx):
+def _cases(ctx):
     rng = ctx.rng
     for fmt, raw in odd_streams(rng, ctx):
         n = len(raw)
@@ -342,3 +342,20 @@ def cases(ctx):
                            real=("h:props.C16.run_feed", [fmt, rawhex, cuts]), expect=exp,
                            tag=fmt + ("-whole" if not cuts else "-1cut" if len(cuts) == 1 else "-2cut" if len(cuts) == 2 else "-multi"),
                            trivial=not cuts, info=dict(fmt=fmt, ncuts=len(cuts)))
+
+
+GEN_READER = {"beast": "tcpclient.TcpClient_read_beast_buffer", "raw": "tcpclient.TcpClient_read_raw_buffer",
+              "skysense": "tcpclient.TcpClient_read_skysense_buffer"}
+
+
+def cases(ctx):
+    """the stream of _cases, with the operation of the source-generated model (gendriver) attached where the reader /
+    source method is translated: the generated definition is fed the same pieces as the real object"""
+    for c in _cases(ctx):
+        real = c["real"]
+        if real[0] == "h:props.C16.run_feed" and real[1][0] in GEN_READER:
+            fmt, rawhex, cuts = real[1][0], real[1][1], real[1][2]
+            c["gop"] = "!feed %s %s %s %s" % (GEN_READER[fmt], fmt, rawhex or "-", ",".join(map(str, cuts)) if cuts else "-")
+        elif real[0] == "h:props.C16.ns_run" and len(real[1]) == 1 and c.get("op", "") and c["op"].startswith("ns "):
+            c["gop"] = "!ns source.NetSource_handle_messages " + c["op"][3:]
+        yield c
